@@ -33,6 +33,17 @@ def nest_begline(o0: bool, o1: bool, o2: bool, o3: bool, o4: bool, o5: bool) -> 
 
 def replay_nest_begline(o0, o1, o2, o3, o4, o5):
     return replay_begline_nesting(o0, o1, o2, o3, o4, o5)
+
+
+def carry2_flags(pre_parse: bool, bol: bool, wsp: bool, supp: bool) -> bool:
+    """
+    post: _
+    """
+    return carry_over2(pre_parse, bol, wsp, supp)
+
+
+def replay_carry2_flags(pre_parse, bol, wsp, supp):
+    return replay_carry_over2(pre_parse, bol, wsp, supp)
 ''']
     ML = 2 if quick else 4  # deepest open marker
     TL = 3 if quick else 5  # token length
@@ -234,6 +245,7 @@ def run(rep: C.Report) -> None:
         {
             "^head_": dict(name="Ob1 heading step: lower-level sections stay open, everything else closes, new section hangs under the nearest lower level", functions=["parser.py:subtitle_start_fn", "parser.py:close_begline_lists", "parser.py:_parser_pop"], bounds=f"all 64 open-level masks x levels 1..6 x list chains with deepest marker <= {2 if quick else 4} symbolic chars"),
             "^headpre_|^hlinepre_": dict(name="Ob9 a heading / rule after a leading-space (preformatted) block: the block is closed where it is and the heading nests by level as always", functions=["parser.py:subtitle_start_fn", "parser.py:hline_fn", "parser.py:_parser_pop"], bounds="all 64 open-level masks x levels 1..6 (and the rule), PREFORMATTED node open on top of the sections"),
+            "^carry2_": dict(name="Ob10 parse() of a heading / list / rule document does not depend on parser flags left behind by an earlier parse() on the same context (havoc)", engine="E4 havoc via CrossHair", functions=["parser.py:parse_encoded (per-call reset)"], bounds="4 symbolic flags (pre_parse, beginning_of_line, wsp_beginning_of_line, suppress_special); one document with three headings, nested lists and a rule"),
             "^hstray_": dict(name="Ob8 a heading-end token with no heading start on its line is text (no section closes, nothing moves into a heading argument)", functions=["parser.py:subtitle_end_fn"], bounds="all 64 masks x levels 1..6 x {directly in the section, inside a template argument}"),
             "^hend_": dict(name="Ob2 heading end on the same line moves the text into the heading argument", functions=["parser.py:subtitle_end_fn"], bounds="all 64 masks x levels 1..6"),
             "^hline_": dict(name="Ob3 rule closes sections deeper than level 2 and lands in the remaining top", functions=["parser.py:hline_fn"], bounds="all 64 masks x list chains"),
